@@ -151,7 +151,9 @@ func raceObligations(p *load.Prog, r *oblig.Run, rule string, a *e4.Analysis, ta
 				okWhy = append(okWhy, "between Lock and Unlock of a mutex in "+load.FuncName(w.Fn))
 			case w.Class == "captured" && !w.Multi && !touchedAfterSpawn(w.Fn, w.Var):
 				okWhy = append(okWhy, "captured by a single goroutine body and not touched by its creator after the go statement")
-			case singleProducerInit(p, w.Fn, w.Instr):
+			case !w.Multi && rootName == "IndividualNodes.Compare" && singleProducerInit(p, w.Fn, w.Instr):
+				// only for one Compare run on its own: when several runs share one options object (the diff page's workers)
+				// each run has its own producer goroutine and the stores race with each other
 				okWhy = append(okWhy, "initialisation by the single producer goroutine before it calls anything; every other access to the field is under a mutex")
 			default:
 				if why, ok := table[site]; ok {
